@@ -4,7 +4,7 @@ import json, subprocess
 
 CLAIMED = {
  # id: (engine, category, technique, text, note, design_ref)
- "C11": ("ovf-codec+ovf-system", "exploration",
+ "C11": ("ovf-codec", "exploration",
          "model-based property testing (proptest histories vs explicit set model) + exhaustive small-scope enumeration; the same model applied end to end with a reference client against the real server and a reference server against the real client",
          "Generated packet-ID histories (boundary-biased, up to 2000 steps) are run through the real PacketWindowFilter and an explicit {max,set} model of the statement, comparing every accept/refuse decision; all sequences up to length 3 (quick) / 4 (thorough) over a 36-value boundary alphabet are enumerated exhaustively. System half: a reference Shadowsocks 2022 client sends generated id histories to the real server (the scripted target must receive exactly the model-accepted datagrams, each once, and fresh ids of the same session must still arrive afterwards); a reference server answers the real client with generated reply-id histories (the application must receive exactly the model-accepted replies and later fresh ones). Exploration: agreement on everything generated, not a proof for all 2^64 histories.",
          "Trusted: the explicit model (20 lines) encodes the property statement; proptest RNG.", "DESIGN.md 5/C11"),
@@ -25,13 +25,13 @@ CLAIMED["C05"] = ("ovf-codec", "exploration",
   "Reference-built encrypted streams and datagrams with known plaintext and unit boundaries are mutated (bit flips, truncation, frame delete/dup/swap, garbage frames, edits, insertions, reflection, cross-session and cross-direction splices) and delivered through the real FramedRead/WebSocketFramed with the server's error-skipping consumer; released bytes must be a prefix of the sender's plaintext no longer than the frames complete before the first changed authenticated byte; tampered or reflected datagrams must yield no item. Exhaustive for every byte position / truncation point of one 3-frame stream per decoder configuration; exploration otherwise.",
   "Trusted: reference encoder and its unit table; RustCrypto AEADs. Trojan is out of scope (not an encrypted protocol).", "DESIGN.md 5/C05")
 
-CLAIMED["C06"] = ("ovf-codec+ovf-system", "exploration",
+CLAIMED["C06"] = ("ovf-codec", "exploration",
   "negative property testing: generated non-credentialed inputs and key near-misses (built with an independent reference encoder) against the real server decoders; differential user-separation check with the reference decoder",
   "Server decoders built from generated credentials and user tables are fed random bytes, reference-built valid handshakes under other / one-bit-different keys, other protocols' handshakes, handshakes truncated before the proof, identity-header and auth-id near-misses; no dial item (ConnectTcp / RelayUdp / decoded datagram) may come out. For every user of generated tables the reply must open under that user's key and under no other key. Exploration: a sampled negative space, not a cryptographic proof.",
   "Trusted: reference encoder for building near-miss handshakes; AEAD/hash primitives.", "DESIGN.md 5/C06")
 
-CLAIMED["C07"] = ("ovf-codec+ovf-fuzz", "exploration",
-  "structure-aware fuzzing: proptest-generated raw / valid-prefix+raw / mutated-valid inputs and reference-sealed malformed plaintexts into every network-facing decoder with panic capture; exhaustive tiny inputs; libFuzzer targets (ASan, debug assertions) in the thorough tier",
+CLAIMED["C07"] = ("ovf-codec", "exploration",
+  "structure-aware fuzzing: proptest-generated raw / valid-prefix+raw / mutated-valid inputs and reference-sealed malformed plaintexts into every network-facing decoder with panic capture; exhaustive tiny inputs (no coverage-guided tier was built)",
   "Arbitrary bytes x segmentation x ending are fed with FramedRead's calling convention to every network-facing decoder of server, client and local side; the sealed-malformed family seals generated malformed plaintexts under the correct key to reach the parsing behind authentication. Oracle: no panic, valid UTF-8 domain names, result is Err/None/item. Exhaustive for inputs of length <= 1, a grid of length 2 and all prefixes of one valid message per decoder. Exploration: absence of crashes is not proven.",
   "Trusted: panic hook + catch_unwind as crash detector (aborts would kill the check: reported as exit 2), reference sealing.", "DESIGN.md 5/C07")
 
@@ -60,7 +60,7 @@ CLAIMED["C01"] = ("ovf-system", "exploration",
   "For each case a fresh octo-squirrel-server and octo-squirrel-client (release build of /repo's working tree, hooks off) are started with a generated configuration (protocol, cipher, transport tcp/tls/ws/wss/quic, user table, worker threads). 1..6 (quick) / 1..24 (thorough) concurrent flows each complete a SOCKS5-IPv4 / SOCKS5-domain / HTTP CONNECT / absolute-URI HTTP handshake and run a generated script of application writes, target writes, pauses and syncs (1 byte .. 256 KiB quick, 4 MiB thorough, protocol edge sizes), optionally through a tap that re-cuts the client-server byte stream. Oracle: the flow's own target port is dialled exactly once; every byte received at either end equals the position-dependent keystream the other end wrote (checked on the fly), nothing extra; when the target answers and closes the application reads the whole answer and then end-of-stream; when the application closes the target reads everything and then end-of-stream; both processes alive without a panic. All 50 README combinations are exercised in every run (sub-check matrix), plus generated combinations. A second family, cold one-shot uploads (handshake, up to 1.5 MiB quick / 6 MiB thorough, immediate close(), optionally a slow target), runs on all 50 combinations too: the target must read exactly the uploaded bytes and then end-of-stream. Closing steps also come with a slow consumer (the receiving side does not read for up to 250 ms while the last bytes are written and the writer closes). Exploration of scripts and of the interleavings the machine produces.",
   "Trusted: the kernel's loopback TCP, the harness's reader threads and keystream. Deadline-decided failures (20 s) are re-run twice on fresh clusters before being reported; wrong bytes, extra dials and dead processes are reported at once.", "DESIGN.md 5/C01")
 
-CLAIMED["C02"] = ("ovf-system+ovf-codec", "exploration",
+CLAIMED["C02"] = ("ovf-system", "exploration",
   "end-to-end property testing of the real binaries over loopback UDP: generated histories of datagrams from several scripted applications to several scripted echo targets, multiset / ownership / label oracle; plus metamorphic segmentation testing of the datagram-in-stream framings",
   "For each case a fresh client and server are started for one README UDP row (Shadowsocks x 7 ciphers, with a user table for the 2022 AES ciphers; VMess x 2 ciphers x tcp/tls/ws/wss/quic; Trojan x tls/wss/quic). 1..4 application sockets send a generated history of SOCKS5-UDP datagrams (sizes 0..40000 quick / 65000 thorough with protocol edges; targets addressed by IPv4 or by name) to 1..3 echo targets that answer with a reply naming themselves and repeating the payload. Oracle: every datagram a target receives equals one addressed to it, at most as often as it was sent (never truncated, merged, altered, duplicated or misdelivered); every reply an application receives is a well-formed SOCKS5-UDP datagram labelled with the replying target, answers a datagram that application sent, at most once; a datagram of at most 32 KiB must be answered within three paced attempts. All 22 UDP configurations are exercised in every run. The VMess and Trojan stream framings of datagrams are additionally decoded through FramedRead / WebSocketFramed under generated segmentations (count, boundaries and bytes preserved).",
   "Trusted: loopback UDP does not lose paced datagrams (loss alone is never a violation; non-delivery is confirmed on three fresh clusters); reference encoder for the framing sub-check.", "DESIGN.md 5/C02")
@@ -79,6 +79,11 @@ CLAIMED["C16"] = ("ovf-system", "exploration",
   "configuration-space testing of the real binaries' start-up: exhaustive over every documented mode and cipher name (sockets observed in /proc, served by real and reference peers), generated near-miss / random names and wrong-length keys (proptest) that must be refused",
   "listeners: every documented Shadowsocks server mode (tcp, udp, tcp_and_udp, quic, tcp_and_quic, absent), VMess/Trojan with and without a quic section, and every client mode are started; the sockets held on the configured port must be exactly the documented set and must serve (TCP and QUIC through a real client's byte-exact echo, UDP through a reference datagram client). names: for each documented cipher name (7 + alias for Shadowsocks, 2 + alias for VMess, with and without a user table) a reference client configured only with the same name and password string must be served by the real server over TCP and over UDP (classic ciphers: ordinary password, EVP_BytesToKey on both paths), and what the real client sends must decode at a reference server. refusals: generated undocumented cipher / protocol / mode strings (case, '_' vs '-', truncation, one changed or added character, related names, random), 2022 keys whose decoded length is 0..64 bytes but not the cipher's (server key, identity key, user key, on server and client), server quic modes without a quic section, missing certificate files: the process must end or stay without any socket on its port, having printed an error, never panic.",
   "Trusted: /proc socket tables; the reference implementation as the definition of 'documented algorithm and key'. Exit status 0 after a logged error counts as a refusal. VMess with a cipher name outside its README column is not asserted.", "DESIGN.md 5/C16")
+
+CLAIMED["C09"] = ("ovf-codec", "exploration",
+  "differential stress testing: operations that succeed alone are re-run by 2..16 barrier-released threads on the shared state (process-wide cipher cache, per-server salt cache, shared contexts) and must give the same per-operation results; K concurrently presented identical handshakes must yield exactly one acceptance; end-to-end runs of 8..64 concurrent scripted flows plus UDP histories through the real binaries",
+  "udp-codec-stress: every thread owns a client UDP session codec and a server codec (all Shadowsocks ciphers, with and without users) and performs request/reply exchanges whose plaintext, address and acceptance must equal the run-alone result, while all threads hammer the process-wide cipher cache. tcp-shared-context: threads run whole request/response round trips with codecs cloned from one shared client context and one shared server context (all protocols). concurrent-replay: K threads present the same valid 2022 request to one server context through a barrier; exactly one acceptance. many-flows: 8..32 (quick) / 16..64 (thorough) concurrent generated TCP flows with per-flow keystreams on 2..16 worker threads through one client/server pair, and generated UDP histories of 4 applications x 3 targets; every flow must be byte-exact and every datagram owned correctly. Exploration of the interleavings the machine produces; the harness does not own the schedule and no sanitizer build is used.",
+  "Trusted: Instant timestamps only label overlap, never decide; the oracles of C01/C02/C10 are reused for the system and replay parts.", "DESIGN.md 5/C09, 9.4")
 
 PENDING = {}
 
@@ -118,10 +123,8 @@ def main():
         "engines": [
             {"name": "ovf-codec", "path": "/verif/harness", "serves_properties": ["C02","C03","C04","C05","C06","C07","C09","C10","C11","C12","C13","C14"],
              "kind_free_text": "in-process property-based testing (proptest) of the real Encoder/Decoder objects, framed adapters, handshake code and packet filter against an independent reference implementation and explicit models"},
-            {"name": "ovf-system", "path": "/verif/harness", "serves_properties": ["C01","C02","C06","C08","C09","C11","C13","C15","C16"],
+            {"name": "ovf-system", "path": "/verif/harness", "serves_properties": ["C01","C02","C08","C09","C11","C12","C15","C16"],
              "kind_free_text": "generated scenarios against the real client/server binaries over loopback with scripted applications, targets, reference peers and injected faults"},
-            {"name": "ovf-fuzz", "path": "/verif/fuzz", "serves_properties": ["C03","C05","C06","C07","C14"],
-             "kind_free_text": "cargo-fuzz / libFuzzer targets (ASan, debug assertions) sharing the harness oracles"},
         ],
         "checks": checks,
         "not_applicable": na,
